@@ -1070,10 +1070,23 @@ struct C06 : World {
         if (!by_feed) { SutScope ss; vbi_dvb_mux_reset(st.mx); ctx.count("abandoned_by_reset"); } else ctx.count("abandoned_by_feed");
         free(arr);
         ts_cc = -1;
+        // when the packet is abandoned by feeding, the frame fed may be one the multiplexer must reject (a Teletext line, then
+        // VPS on line 17 resp. a line order error: the rejection comes after data units have been written into the packet
+        // buffer the coroutine was reading): "produces no output at all and leaves the multiplexer usable" - also for the
+        // half-read packet; the frames behind it must come out well-formed
+        bool rejected_feed = by_feed && ((h >> 36) & 1);
+        if (rejected_feed) {
+          Line v1; v1.line = 7; v1.svc = 0; v1.data = gen_payload(42, h ^ 55, 4, 7900 + a);
+          Line v2; v2.line = ((h >> 37) & 1) ? 17 : 6; v2.svc = ((h >> 37) & 1) ? 3 : 0; v2.data = gen_payload(SVC[v2.svc].nbytes, h ^ 66, 4, 7950 + a);
+          ctx.count("abandoned_by_rejected_feed");
+          do_frame({v1, v2}, 0x100000080ll + a, 0, 0, 0, 0, 1);
+          if (ctx.failed) break;
+        }
         // the next frame(s): through feed (when abandoning by feed: necessarily) or the coroutine
         Line l; l.line = 9; l.svc = 0; l.data = gen_payload(42, h ^ 77, 4, 8000 + a);
         if (cfg.max < 184) cfg.max = 184;
-        do_frame({l}, 0x100000000ll + a, by_feed ? 0 : (int)((h >> 33) & 1), 0, (int)((h >> 34) % 600), 0, 1);
+        // (after a rejected feed the half-read packet is still the multiplexer's business: the next frame comes through either interface)
+        do_frame({l}, 0x100000000ll + a, by_feed && !rejected_feed ? 0 : (int)((h >> 33) & 1), 0, (int)((h >> 34) % 600), 0, 1);
         if (!ctx.failed) { Line l2; l2.line = 11; l2.svc = 0; l2.data = gen_payload(42, h ^ 99, 4, 8100 + a); do_frame({l2}, 0x100000100ll + a, (int)((h >> 44) & 1), 0, (int)((h >> 45) % 600), 0, 1); }
       }
       st.producer_done = true;
